@@ -21,12 +21,15 @@
   * GUARD DELETIONS (section 7): mirrors take Boolean flags that drop one Go guard; for each such guard a concrete
     input is proved to make the guard-less mirror PANIC.  So the `…_eq` theorems are not provable for the mutated
     code: removing one of these guards in Go (and in its mirror) breaks a theorem.
-  * `Jmes/Proofs/C03DSites.lean`: the mechanically extracted inventory of all 372 index / slice / make / assert /
-    integer-division / Grow sites of the module's non-test files with the mirror covering each:
-    216 go through a checked mirror (ALL sites of lexer.go, of the literal decoders of parser.go, of slice.go,
+  * `Jmes/Proofs/C03DSites.lean`: the mechanically extracted inventory of all 379 index / slice / make / assert /
+    integer-division / Grow sites of the module's non-test files (line numbers of the current /repo text) with the
+    mirror covering each:
+    220 go through a checked mirror (ALL sites of lexer.go, of the literal decoders of parser.go, of slice.go,
     string.go, array.go, functions.go, object.go, compare.go, and the multi-select and zip cases of evaluator.go),
-    64 are `node.Arguments[k]` (arity — section 6), 20 are `sort.Stable` callbacks (`Less`/`Swap`), 8 cannot panic
-    by inspection (`make(map, len(x))`, `Grow(len(x))`), 64 are `Walk` methods unreachable from the entry points.
+    64 are `node.Arguments[k]` (arity — section 6), 20 are `sort.Stable` callbacks (`Less`/`Swap`), 11 cannot panic
+    by inspection (5 `make(map, len(x))` size hints, 6 `make([]any, 0, len(x))` with length 0 and the capacity of
+    something that exists; the four `Grow` calls all have mirrors), 64 are `Walk` methods unreachable from the entry
+    points.
 
   Hypotheses that remain, all established by a caller or by the Go runtime, each shown necessary by an example:
   * `2 ≤ len(token)` for the literal decoders — PROVED of every token of the model's lexer (`literal_decoders_checked`);
@@ -34,9 +37,19 @@
     (`SliceGo.stepPhase_step`);
   * `zip` has ≥ 1 argument — PROVED of every parsed expression (`ArrGo.parse_zip_nonempty`);
   * call nodes carry the argument count of their builtin — PROVED of every parsed expression (`C08B.compile_arityOK`);
-  * `Fits v`: a string / array / object handed to `make`-ing code has at most 2^47 bytes / elements / members
-    (`make?` refuses more, as `runtime.makeslice` refuses `len > maxAlloc/elemsize`).  True of every value that
-    exists in a Go process's memory; not derivable in the model, whose lists are unbounded.
+  * `step ≠ 0`, all of `start`, `stop`, `step` Go `int`s — for EVERY slice node of EVERY compiled expression:
+    `C03E.compile_sliceOK` (Jmes/Properties/C03E.lean);
+  * `Fits v`: a string / array / object handed to `make`-ing code has at most 2^44 bytes / elements / members
+    (`makeLimit = maxAlloc / 16 = 2^44`: `make?` refuses more EXACTLY as `runtime.makeslice` refuses
+    `len > maxAlloc/elemsize` for the 16-byte element type `any`; `makeOf?` carries the element size, 24 bytes for the
+    `[][]any` of `zip`).  True of every array / object that exists in a Go process's memory (it was allocated under the
+    same limit); for strings it excludes texts of ≥ 16 TiB.  Not derivable in the model, whose lists are unbounded.
+
+  Third review (series E): the model's `.nondet` marker for map-ordered arrays is now consulted AFTER the checked
+  operation in every mirror (`SliceGo.indexG`, `sliceArrTail`, `sliceStepArrTail`, `ArrGo.indexC`, `zipC`,
+  `maxBy*TailC`, `minBy*TailC`, `fromItemsLoop*`), so the bound checks are evaluated on map-ordered inputs too;
+  `strings.Builder.Grow` has mirrors at all four sites; `zipNodeC` evaluates the arguments inside the loop as Go does;
+  `selectArrayC` has the `child == nil` return.
 -/
 import Jmes.Proofs.C03DString
 import Jmes.Proofs.C03DSlice
@@ -50,7 +63,8 @@ import Jmes.Properties.C08B
 namespace Jmes.C03D
 open Jmes
 
-/-- the size hypothesis: a string shorter than 2^47 bytes, an array / object of at most 2^47 elements / members -/
+/-- the size hypothesis: a string shorter than 2^44 bytes, an array / object of at most 2^44 elements / members
+    (`makeLimit = 2^44 = maxAlloc / 16`, the Go runtime's own limit for `make([]any, n)`) -/
 def Fits : Val → Prop
   | .str s => (s.length : Int) < makeLimit
   | .arr _ a => (a.length : Int) ≤ makeLimit
@@ -162,14 +176,14 @@ theorem sortArrayBy_checked (f : Val → Res Val) (v : Val) (hfit : Fits v) :
   ArrGo.sortArrayByC_eq f v hfit.arr
 /-- `group_by(a, &f)` (object.go:9): the unchecked `r[s].([]any)` never fails — the map only holds `[]any` -/
 theorem groupBy_checked (f : Val → Res Val) (v : Val) : ArrGo.groupByC f v = groupBy f v := ArrGo.groupByC_eq f v
-/-- **`reverse(x)`** (functions.go:91): `s = s[:len(s)-sz]`; `make([]any, l)`, `r[j] = a[i]` -/
+/-- **`reverse(x)`** (functions.go:91): `b.Grow(len(s))`, `s = s[:len(s)-sz]`; `make([]any, l)`, `r[j] = a[i]` -/
 theorem reverse_checked (v : Val) (hfit : Fits v) : ArrGo.reverseC v = reverse v := ArrGo.reverseC_eq v hfit.arr
 /-- **`to_number(s)`** (functions.go:13 `isJSONNumber`): every `s[i]` is behind its `i < len(s)` test -/
 theorem isJSONNumber_checked (s : Bytes) : ArrGo.isJSONNumberC s = .ok (Json.isValidNumber s) :=
   ArrGo.isJSONNumberC_eq s
 /-- `to_number(v)` (functions.go:129) through the checked `isJSONNumber` -/
 theorem toNumber_checked (v : Val) : ArrGo.toNumberC v = .ok (toNumber v) := ArrGo.toNumberC_eq v
-/-- **`from_items(a)`** (object.go:78): `ia[0]`, `ia[1]` behind `len(ia) != 2` -/
+/-- **`from_items(a)`** (object.go:79): `ia[0]`, `ia[1]` behind `len(ia) != 2` -/
 theorem fromItems_checked (v : Val) : ObjGo.fromItemsC v = fromItems v := ObjGo.fromItemsC_eq v
 /-- **`keys`**, **`values`**, **`items`** (object.go:136, :173, :117): `make([]any, len(m))`, `r[i] = …` -/
 theorem keys_checked (v : Val) (hfit : Fits v) : ObjGo.keysC v = keys v := ObjGo.keysC_eq v hfit.obj
@@ -190,10 +204,30 @@ theorem selectList_checked (root : Val) (ns : List INode) (cur : Val) (env : Env
     an argument — which `ArrGo.parse_zip_nonempty` proves of every parsed expression -/
 theorem zip_checked (root : Val) (args : List INode) (cur : Val) (env : Env) (vs : List Val)
     (hne : ArrGo.zipHead (.zip args) = true) (hvs : ievalZip root args cur env = .ok vs)
-    (hargs : (args.length : Int) ≤ makeLimit) (hfit : ∀ v ∈ vs, Fits v) :
+    (hargs : (args.length : Int) ≤ makeLimitOf 24) (hfit : ∀ v ∈ vs, Fits v) :
     ieval root (.zip args) cur env = ArrGo.zipC vs :=
   ArrGo.zip_node_checked root args cur env vs hne hvs hargs (fun _ _ h => hfit _ h)
-/-- every `zip` node of a compiled expression has at least one argument (parser.go:1347 rejects `zip()`) -/
+/-- **`zip(a, b, …)` as Go runs it** (evaluator.go:1046-1080): `make([][]any, len(node.Arguments))` FIRST, then the
+    arguments are evaluated inside the loop between the writes `values[i] = a`.  In every case — all arguments
+    evaluate, argument `k` fails after `k` writes, argument `k` is not an array — the checked mirror is the model's
+    evaluation of the node: nothing panics. -/
+theorem zipNode_checked (root : Val) (args : List INode) (cur : Val) (env : Env)
+    (hne : ArrGo.zipHead (.zip args) = true) (hargs : (args.length : Int) ≤ makeLimitOf 24)
+    (hfit : ∀ vs, ievalZip root args cur env = .ok vs → ∀ v ∈ vs, Fits v) :
+    ArrGo.zipNodeC (fun n => ieval root n cur env) args = ieval root (.zip args) cur env :=
+  ArrGo.zipNodeC_eq root args cur env hne hargs (fun vs h _ _ hm => hfit vs h _ hm)
+/-- **multi-select list nodes as Go runs them** (evaluator.go:718-754): the `child == nil` / `current == nil` return
+    comes before `make([]any, len(node.Fields))` -/
+theorem selectArray_checked (root : Val) (c : INode) (fs : List INode) (cur : Val) (env : Env)
+    (hfit : (fs.length : Int) ≤ makeLimit) :
+    ObjGo.selectArrayC (fun n v => ieval root n v env) c fs cur = ieval root (.selectArray c fs) cur env :=
+  ObjGo.selectArrayC_eq root c fs cur env hfit
+/-- the child-less form -/
+theorem selectArrayCurrent_checked (root : Val) (fs : List INode) (cur : Val) (env : Env)
+    (hfit : (fs.length : Int) ≤ makeLimit) :
+    ObjGo.selectArrayCurrentC (fun n v => ieval root n v env) fs cur = ieval root (.selectArrayCurrent fs) cur env :=
+  ObjGo.selectArrayCurrentC_eq root fs cur env hfit
+/-- every `zip` node of a compiled expression has at least one argument (parser.go:1349 rejects `zip()`) -/
 theorem compile_zip_nonempty {expr : Bytes} {n : INode} (h : compile expr = .ok n) : n.all ArrGo.zipHead = true :=
   ArrGo.parse_zip_nonempty h
 
@@ -206,6 +240,10 @@ example : ObjGo.equalArrG true equal [.null] [.null, .null] = .ok false := rfl
 example : ObjGo.fromItemsC (.arr .plain [.arr .plain [.str [0x61]]]) = errValue := rfl
 /-- `zip()` cannot be written; if it could, `make([]any, math.MaxInt)` would panic -/
 example : ArrGo.zipC [] = .panic makeMsg := rfl
+/-- `zip(@, 'x')`: the second argument is not an array — an error after one write, not a panic -/
+example : ArrGo.zipNodeC (fun n => ieval .null n (.arr .plain [.null]) []) [.current, .lit (.str [0x78])]
+    = .err [Cat.invalidType] := rfl
+example : ObjGo.selectArrayCurrentC (fun n v => ieval .null n v []) [.current] .null = .ok .null := rfl
 
 /-! ## 4. the lexer (lexer.go), position based -/
 
@@ -230,16 +268,16 @@ example : LexGo.lexAllC [0x5B, 0x2A, 0x80] 4 0
     = .ok ([⟨.openSqBrace, [0x5B]⟩, ⟨.asterisk, [0x2A]⟩], some .invalidRune) := by rfl
 example : LexGo.decodeRuneC [0x61, 0xC3] 3 = .panic sliceMsg := by rfl
 
-/-! ## 5. the literal decoders of the parser (parser.go:2110-2331) -/
+/-! ## 5. the literal decoders of the parser (parser.go:2111-2336) -/
 
 /-- **`parseStringLiteral`**, **`parseQuotedIdentifier`**, **`parseJSONLiteral`** on a token of at least two bytes:
     `s[1:len(s)-1]`, `v[0]`, `v[1:]`, `v[:i]`, `v[i+1:]`, `v[j]`, `v[1:5]`, `v[5:]`, `v[1]`, `v[2:6]`, `v[6:]` never panic -/
 theorem parseStringLiteral_checked (s : Bytes) (h : 2 ≤ s.length) :
     LitGo.parseStringLiteralC s = .ok (parseStringLiteral s) := LitGo.parseStringLiteralC_eq s h
-/-- `parseQuotedIdentifier` (parser.go:2186) on a token of at least two bytes -/
+/-- `parseQuotedIdentifier` (parser.go:2187) on a token of at least two bytes -/
 theorem parseQuotedIdentifier_checked (s : Bytes) (h : 2 ≤ s.length) :
     LitGo.parseQuotedIdentifierC s = .ok (parseQuotedIdentifier s) := LitGo.parseQuotedIdentifierC_eq s h
-/-- `parseJSONLiteral` (parser.go:2110) on a token of at least two bytes: `s[1:len(s)-1]`, `v[0]` behind `len(v) == 0` -/
+/-- `parseJSONLiteral` (parser.go:2111) on a token of at least two bytes: `s[1:len(s)-1]`, `v[0]` behind `len(v) == 0` -/
 theorem parseJSONLiteral_checked (s : Bytes) (h : 2 ≤ s.length) :
     LitGo.parseJSONLiteralC s = .ok (parseJSONLiteral s) := LitGo.parseJSONLiteralC_eq s h
 /-- **on lexer output the hypothesis holds**: for every token of every expression (arbitrary bytes) the three decoders
@@ -353,6 +391,16 @@ theorem guard_splitCount_clamp :
 /-- slice.go:46 `if start >= stop` — without it `[2:1]` on a 3-element array panics at `a[2:1]` -/
 theorem guard_slice_cmp :
     SliceGo.sliceArrG false .plain SliceGo.abc 2 1 = .panic sliceMsg := rfl
+/-- the same guards are load-bearing on MAP-ORDERED arrays (`values(@)[3]`, `values(@)[2:1]`, `values(@)[5::-1]` on an
+    object of three members): the mirrors check the bound before they consult the model's nondeterminism marker -/
+theorem guard_map_ordered :
+    SliceGo.indexG true false (.arr .enum SliceGo.abc) 3 = .panic idxMsg ∧
+    SliceGo.indexG false true (.arr .enum SliceGo.abc) (-4) = .panic idxMsg ∧
+    SliceGo.sliceArrG false .enum SliceGo.abc 2 1 = .panic sliceMsg ∧
+    SliceGo.sliceStepArrG false true .enum SliceGo.abc 2 0 2 = .panic makeMsg ∧
+    SliceGo.sliceStepArrG true false .enum SliceGo.abc 5 (-(2 ^ 63)) (-1) = .panic idxMsg ∧
+    ArrGo.indexC (.arr .enum SliceGo.abc) 3 (hiGuard := false) = .panic idxMsg :=
+  ⟨rfl, rfl, rfl, rfl, rfl, rfl⟩
 /-- object.go:98 `if len(ia) != 2` — without it `from_items([[]])` panics at `ia[0]` -/
 theorem guard_fromItems_len : ObjGo.fromItemsG false (.arr .plain [.arr .plain []]) = .panic idxMsg := rfl
 /-- compare.go:67 `if len(x) != len(y)` — without it `` `[true, null]` == `[true]` `` panics at `y[1]` -/
